@@ -314,6 +314,49 @@ def _generator(nfail, a, pre=0):
     class P:
         a = h.Param(dtype=int, desc="a")
 
+    if pre == 3:
+        # history: a call that fails AFTER its body ran - the parameters are hashable but cannot be named - repeated: the same
+        # error every time, also when the body hands out an existing module; and that module, returned afterwards by a
+        # generator whose parameters can be named, gets the name a fresh process gives it
+        class Opaque:
+            def __init__(self, v):
+                self.v = v
+
+            def __eq__(self, other):
+                return isinstance(other, Opaque) and self.v == other.v
+
+            def __hash__(self):
+                return hash(self.v)
+
+        @h.paramclass
+        class PO:
+            o = h.Param(dtype=Opaque, desc="o")
+
+        M = h.Module(name="M")
+        M.x = h.Port(width=a)
+
+        @h.generator
+        def Hands(p: PO) -> h.Module:
+            return M
+
+        errs = []
+        for k in range(nfail + 1):
+            try:
+                r = Hands(PO(o=Opaque(a + k % 2)))
+                return _fail(f"attempt {k} of a call whose result cannot be named returned a module named {r.name!r} (earlier attempts: {errs})")
+            except Exception as e:
+                errs.append(type(e).__name__ + ": " + _norm(e)[:80])
+        if len(set(errs)) != 1:
+            return _fail(f"a repeated failing call reported different errors: {errs}")
+
+        @h.generator
+        def Namer(p: P) -> h.Module:
+            return M
+
+        got = Namer(a=a).name
+        if got != f"M(a={a})":
+            return _fail(f"a module handed out by a failed call was later named {got!r}, a fresh process names it 'M(a={a})'")
+
     @h.generator
     def Flaky(p: P) -> h.Module:
         state["n"] += 1
@@ -398,10 +441,10 @@ def planted_fault(fault, level, cont, w, via, neg):
         return _planted(fault, level, cont, w, via, bool(neg))
 
 
-@harness("C08", args="nfail: int, a: int, pre: int", pre=["1 <= nfail <= 3", "1 <= a <= 3", "0 <= pre <= 2"], tiers={"quick": {"timeout": 120}}, sample=(1, 2, 0),
-         bounds="a generator (called from inside another generator) whose body raises on its first 1..3 calls and then succeeds; alone, after a generator-to-generator circular-dependency error earlier in the process, or called again from inside a body that caught its failure",
+@harness("C08", args="nfail: int, a: int, pre: int", pre=["1 <= nfail <= 3", "1 <= a <= 3", "0 <= pre <= 3"], tiers={"quick": {"timeout": 150}}, sample=(1, 2, 0),
+         bounds="a generator (called from inside another generator) whose body raises on its first 1..3 calls and then succeeds; alone, after a generator-to-generator circular-dependency error earlier in the process, called again from inside a body that caught its failure, or after repeated calls that failed after their body ran (un-nameable parameters) while handing out an existing module",
          generalises="selectors", outside="")
 def generator_raises(nfail, a, pre):
-    nfail, a, pre = env.pick(nfail, 1, 3), env.pick(a, 1, 3), env.pick(pre, 0, 2)
+    nfail, a, pre = env.pick(nfail, 1, 3), env.pick(a, 1, 3), env.pick(pre, 0, 3)
     with env.notrace():
         return _generator(nfail, a, pre)
